@@ -31,3 +31,16 @@ func (tic *TermInCommittee) VerifSnapshot() VerifSnapshot {
 func (tic *TermInCommittee) VerifCommittee() []interfaces.CommitteeMember {
 	return tic.committeeMembers
 }
+
+// VerifIsLeader exposes the leader predicate used when a PREPREPARE, PREPARE or NEW_VIEW is received
+// (tic.isLeader), on a term that holds nothing but the committee.
+func VerifIsLeader(candidate primitives.MemberId, view primitives.View, committeeMembers []interfaces.CommitteeMember) bool {
+	tic := &TermInCommittee{committeeMembers: committeeMembers}
+	return tic.isLeader(candidate, view) == nil
+}
+
+// VerifLeaderOfTerm is the leader a term computes for VIEW_CHANGE destinations and proof validation (tic.calcLeaderMemberId).
+func VerifLeaderOfTerm(view primitives.View, committeeMembers []interfaces.CommitteeMember) primitives.MemberId {
+	tic := &TermInCommittee{committeeMembers: committeeMembers}
+	return tic.calcLeaderMemberId(view)
+}
